@@ -942,7 +942,28 @@ func (g *gen) passOps() {
 	}
 }
 
+// ---- concurrent verification on shared objects ----
+
+func (g *gen) concOps() {
+	g.stream("concurrent")
+	kinds := []string{"check", "checkhex", "sess", "gate", "time", "jwths"}
+	ms := g.n(500, 2500) // quick: 6 x 0.5 s
+	for i, kind := range kinds {
+		n := []int{8, 4, 16, 8, 4, 8}[i]
+		if g.big {
+			n = hx.Pick(g.r, []int{4, 8, 16})
+		}
+		g.add(fmt.Sprintf("conc kind=%s n=%d ms=%d seed=%d k=%s", kind, n, ms, g.r.Intn(1<<30), hx.Hex(g.r.Bytes(17))))
+	}
+	if g.big {
+		for _, kind := range kinds {
+			g.add(fmt.Sprintf("conc kind=%s n=16 ms=%d seed=%d k=%s", kind, ms, g.r.Intn(1<<30), hx.Hex(g.key())))
+		}
+	}
+}
+
 func (g *gen) all() {
+	g.concOps()
 	g.codecs()
 	g.signerOps()
 	g.sessionOps()
